@@ -16,6 +16,13 @@ HEADER = shm.HEADER_SIZE
 MAXA = shm.MAX_ALLOCS
 U64 = 2**64
 
+MANIFEST = {
+    "level_text": "Unbounded deductive proof over the real allocate/free/_ShmSink.write/allocate_and_write code: the table invariant (sorted, in-range, pairwise disjoint, <= MAX_ALLOCS) is inductive, a returned region is disjoint from all live regions and is the first fitting gap, None only when full or nothing fits, free removes exactly the named entry, and every direct write lands inside the region just allocated. Tests sample a few tables; the proof covers every table, size and offset.",
+    "level_note": "Assumes: _read_allocs/_write_allocs inverse on in-range tables (bounded stand-in on real buffers), pyarrow writes only through sink.write, lockstep protocol (no concurrent header mutation), total_size < 2^64, loop termination unverified, engine + z3/cvc5 trusted.",
+    "technique": "contract-based deductive verification: loop invariants + quantified table invariant, VCs from the real AST (pyvc), z3/cvc5",
+    "design_ref": "DESIGN.md §5 C28",
+}
+
 EXPLANATION = (
     "Unbounded proof (inductive loop invariants, quantified table invariant wf) that allocate/free keep the "
     "allocation table well-formed, that a returned region is disjoint from every live region and inside the "
@@ -31,7 +38,7 @@ ASSUMPTIONS = [
     "single active side (lockstep protocol): no concurrent mutation of the header",
     "total_size < 2^64 (the header stores data_size as uint64)",
     "termination of the loops is not verified",
-    "second sentence of the property (a batch never extends beyond its own allocation) depends on pyarrow's IPC size estimate and is only covered by the bounded stand-in C28.O5",
+    "second sentence of the property: proved for the Python side (sink bounded by the allocation, O5a/O5b); that pyarrow's writer reaches the buffer only through sink.write is assumed",
 ]
 
 ELEM = TupleShape(IntShape, IntShape)
@@ -398,3 +405,162 @@ def standin_read_write(tier, seed):
         if a._read_allocs() != t or a.num_allocs != len(t):
             fails.append(f"read(write({t[:3]}...)) differs")
     return BoundedResult(n, fails)
+
+
+# ------------------------------------------------------------------------------------------
+# C28.O5  a batch written into shared memory never extends beyond its own allocation
+#          (second sentence of the property) — provable since the sink is bounded by its region
+# ------------------------------------------------------------------------------------------
+
+
+def _buf_obj(S):
+    buf = SObj(None, kind="shmbuf")
+
+    def setitem(S, b, idx, val):
+        if not isinstance(idx, slice):
+            raise Unsupported("shmbuf single-index store")
+        S.event("bufwrite", idx.start, idx.stop, val)
+
+    S.handlers["shmbuf.__setitem__"] = setitem
+    return buf
+
+
+def replay_sink_write(inputs, ob):
+    start, pos, n = inputs["start"], inputs["pos"], inputs["n"]
+    limit = inputs.get("limit")
+    if inputs.get("has_limit") is False:
+        limit = None
+    size = max(pos + n, limit or 0, 1) + 16
+    if size > 1 << 22 or min(start, pos, n) < 0:
+        return ReplayResult(False, "model outside replayable range")
+    backing = bytearray(size)
+    sink = shm._ShmSink(memoryview(backing), start, limit) if limit is not None else shm._ShmSink(memoryview(backing), start)
+    sink._pos = pos
+    try:
+        sink.write(b"\x01" * n)
+    except Exception as e:
+        touched = any(backing)
+        return ReplayResult(touched or (limit is not None and pos + n <= limit), f"write raised {type(e).__name__}; bytes touched={touched}")
+    touched = [i for i, b in enumerate(backing) if b]
+    bad = bool(touched) and limit is not None and (touched[-1] >= limit or touched[0] < start)
+    return ReplayResult(bad, f"start={start} pos={pos} n={n} limit={limit}: bytes touched [{touched[0] if touched else None},{touched[-1] if touched else None}]")
+
+
+@unit("C28.O5a _ShmSink.write stays inside its region", targets=["vgi_rpc/shm.py::_ShmSink.write"], replay=replay_sink_write, min_obligations=3)
+def sink_write(S):
+    buf = _buf_obj(S)
+    start, pos, n = S.int("start"), S.int("pos"), S.int("n")
+    limit = S.int("limit")
+    has_limit = S.choose(2) == 0
+    S.inputs["has_limit"] = has_limit
+    S.assume(And(start >= 0, pos >= start, n >= 0))
+    if has_limit:
+        S.assume(limit >= pos)  # sink invariant: start <= pos <= limit
+    me = SObj(shm._ShmSink, _buf=buf, _pos=pos, _start=start, _limit=limit if has_limit else None)
+    data = S.bytes("data")
+    S.assume(data.length() == n)
+    S.handlers[memoryview] = lambda S, d: d
+    out = S.outcome(shm._ShmSink.write, me, data)
+    writes = S.events("bufwrite")
+    if out.raised:
+        S.oblige("O5a.raise_writes_nothing", len(writes) == 0, kind="trace")
+        return
+    S.oblige("O5a.exactly_one_buffer_write", len(writes) == 1, kind="trace")
+    for _, lo, hi, val in writes:
+        S.oblige("O5a.write_is_at_cursor", And(lo == pos, hi == pos + n))
+        if has_limit:
+            S.oblige("O5a.write_inside_region", And(lo >= start, hi <= limit))
+    S.oblige("O5a.cursor_advances", me.fields["_pos"] == pos + n)
+    if has_limit:
+        S.oblige("O5a.sink_invariant_preserved", me.fields["_pos"] <= limit)
+    S.oblige("O5a.returns_count", out.value == n)
+    S.canary("O5a.canary.never_advances", me.fields["_pos"] == pos)
+
+
+@unit("C28.O5b allocate_and_write bounds the sink by its allocation", targets=["vgi_rpc/shm.py::ShmSegment.allocate_and_write"], min_obligations=4)
+def allocate_and_write(S):
+    import pyarrow.ipc as ipc
+
+    buf = _buf_obj(S)
+    shmobj = SObj(None, kind="SharedMemory", buf=buf)
+    alloc = SObj(None, kind="Alloc")
+    me = SObj(shm.ShmSegment, _shm=shmobj, _allocator=alloc)
+    batch = SObj(None, kind="RecordBatch", schema=SObj(None, kind="Schema"))
+    is_dict = S.choose(2) == 1
+    S.handlers["_has_dictionary_columns"] = lambda S, schema: is_dict
+    rbs = S.int("record_batch_size")
+    ssz = S.int("schema_size")
+    S.assume(And(rbs >= 0, ssz >= 0))
+    S.handlers[ipc.get_record_batch_size] = lambda S, b: rbs
+    S.handlers["Schema.serialize"] = lambda S, sc: SObj(None, kind="Buffer", size=ssz)
+
+    def allocate(S, a, size):
+        # by contract C28.O1: None, or an offset whose region [o, o+size) is recorded as the allocation
+        S.oblige("O5b.pre_allocate_size_positive", size > 0, kind="pre")
+        if S.choose(2) == 1:
+            return None
+        o = S.int("alloc_offset")
+        S.assume(And(o >= HEADER, size > 0))
+        S.event("allocated", o, size)
+        return o
+
+    def free(S, a, o):
+        S.event("freed", o)
+
+    S.handlers["Alloc.allocate"] = allocate
+    S.handlers["Alloc.free"] = free
+
+    def mk_sink(S, b, start, limit=None):
+        S.event("sink", b, start, limit)
+        return SObj(None, kind="Sink", bytes_written=S.int("bytes_written"))
+
+    S.handlers[shm._ShmSink] = mk_sink
+    overflow = S.choose(2) == 1
+
+    def new_stream(S, sink, schema):
+        return SObj(None, kind="Writer")
+
+    def write_batch(S, w, b):
+        if overflow:
+            raise PyRaise(SExc(shm._ShmRegionOverflowError, ("overflow",)))
+
+    S.handlers["new_ipc_stream"] = new_stream
+    S.handlers["Writer.write_batch"] = write_batch
+    S.handlers["Writer.close"] = lambda S, w: None
+    ser_size = S.int("serialized_size")
+    S.assume(ser_size > 0)
+    S.handlers["_serialize_for_shm"] = lambda S, b: SObj(None, kind="Buffer", size=ser_size)
+
+    class _MV:
+        pass
+
+    def mview(S, x):
+        mv = SObj(None, kind="MV", src=x)
+        return mv
+
+    S.handlers[memoryview] = mview
+    S.handlers["MV.cast"] = lambda S, mv, fmt: mv
+    out = S.outcome(shm.ShmSegment.allocate_and_write, me, batch)
+    S.oblige("O5b.raises_nothing_of_its_own", out.returned, kind="raises")
+    if not out.returned:
+        return
+    allocs = S.events("allocated")
+    if not is_dict:
+        for _, b, start, limit in S.events("sink"):
+            S.oblige("O5b.sink_targets_the_segment", b is buf, kind="trace")
+            S.oblige("O5b.sink_has_limit", limit is not None and len(allocs) == 1, kind="trace")
+            if limit is not None and len(allocs) == 1:
+                _, o, size = allocs[0]
+                S.oblige("O5b.sink_region_is_the_allocation", And(start == o, limit == o + size))
+        if overflow and allocs:
+            S.oblige("O5b.overflow_frees_region_and_falls_back", out.value is None and [e[1] for e in S.events("freed")] == [allocs[0][1]], kind="trace")
+        if allocs and not overflow:
+            S.oblige("O5b.returns_offset_of_allocation", out.value is not None and out.value[0] is allocs[0][1], kind="trace")
+    else:
+        for _, lo, hi, val in S.events("bufwrite"):
+            _, o, size = allocs[0]
+            S.oblige("O5b.dict_copy_inside_allocation", And(lo == o, hi == o + size))
+            S.oblige("O5b.dict_allocation_is_serialized_size", size == ser_size)
+    if not allocs:
+        S.oblige("O5b.no_allocation_means_none", out.value is None, kind="trace")
+    S.canary("O5b.canary.always_none", out.value is None)
